@@ -747,3 +747,14 @@ Proof.
   - intros [(e & [H|[H|[]]])|(v & H)]; discriminate.
   - vm_compute. auto.
 Qed.
+
+(* non-vacuity with field mappings over nested maps (MapFields from a field that holds a map,
+   ToField of a whole map, FromField of a nested map) *)
+Lemma wfn_prog_in_domain :
+  sprog_wf wfn_prog = true
+  /\ dom_ok (compile_sprog wfn_prog) (VS "ab"%string) = true
+  /\ g_invoke (compile_sprog wfn_prog) (VS "ab"%string)
+     = Ok (VS "n5{ak=n4{ah=n3{af/;af.ac=n1<ab;af.ad=ab>;ag/;ag.ai=n2<ab;ag.aj=ab>;};};}"%string)
+  /\ vsconcatR (g_transform seq_mrg (compile_sprog wfn_prog) (map Val [VS "a"%string; VS "b"%string]))
+     = g_invoke (compile_sprog wfn_prog) (VS "ab"%string).
+Proof. vm_compute. repeat split. Qed.
